@@ -14,6 +14,7 @@
 static pika::threads::detail::thread_function_type verif_spawned[VERIF_MAX_SPAWN];
 static int verif_nspawned;
 static void const* verif_spawned_pool[VERIF_MAX_SPAWN];    // which pool each task was registered on
+static int verif_spawned_hint_mode[VERIF_MAX_SPAWN], verif_spawned_hint[VERIF_MAX_SPAWN], verif_spawned_prio[VERIF_MAX_SPAWN], verif_spawned_stack[VERIF_MAX_SPAWN];
 static pika::threads::detail::thread_data* verif_created[VERIF_MAX_SPAWN];    // task objects made by create_thread
 static int verif_ncreated;
 static std::size_t verif_pool_workers = 1, verif_local_worker = 0;
@@ -51,6 +52,10 @@ struct verif_pool final : pika::threads::detail::thread_pool_base
     {
         verif_assert(verif_nspawned < VERIF_MAX_SPAWN, "harness bound: too many spawned tasks");
         verif_spawned_pool[verif_nspawned] = this;
+        verif_spawned_hint_mode[verif_nspawned] = (int) data.schedulehint.mode;
+        verif_spawned_hint[verif_nspawned] = (int) data.schedulehint.hint;
+        verif_spawned_prio[verif_nspawned] = (int) data.priority;
+        verif_spawned_stack[verif_nspawned] = (int) data.stacksize;
         verif_spawned[verif_nspawned++] = std::move(data.func);
         return {};
     }
